@@ -3,6 +3,8 @@
 //! The input numbers start with the component number understood by `mrun` (the extracted model).
 mod codec;
 mod rng;
+mod robs_map;
+mod robs_set;
 mod transport;
 
 use std::io::Write;
@@ -73,6 +75,8 @@ fn main() {
     std::panic::set_hook(Box::new(|_| {}));
     match comp {
         "codec" => codec::run(seed, count, &extra, &mut out),
+        "robs_map" => robs_map::run(seed, count, &extra, &mut out),
+        "robs_set" => robs_set::run(seed, count, &extra, &mut out),
         _ => {
             eprintln!("unknown component {comp}");
             std::process::exit(2);
